@@ -153,7 +153,11 @@ func (c *TextLayout) ToBytes(e *Event) []byte {
 	enc.AppendEncoderEnd()
 
 	buf.WriteByte('\n')
-	return buf.Bytes()
+
+	// The buffer goes back to the pool when this function returns, so the
+	// result must not alias its memory: another goroutine may already be
+	// formatting into it while the caller is still writing these bytes.
+	return bytes.Clone(buf.Bytes())
 }
 
 // JSONLayout formats a log event as a structured JSON object.
@@ -184,5 +188,9 @@ func (c *JSONLayout) ToBytes(e *Event) []byte {
 	enc.AppendEncoderEnd()
 
 	buf.WriteByte('\n')
-	return buf.Bytes()
+
+	// The buffer goes back to the pool when this function returns, so the
+	// result must not alias its memory: another goroutine may already be
+	// formatting into it while the caller is still writing these bytes.
+	return bytes.Clone(buf.Bytes())
 }
